@@ -9,8 +9,8 @@ it are the two named hypotheses `EventsMonotone` and `ChunksUtf8`
 (`Lemmas/Chunker.lean`), which the harness checks on every real trace.
 
 Obligations of this file: `chunker_partition`, `chunker_lag_one`,
-`chunker_buffer_bounded`, `no_panic_chunker`, `no_panic_chunker_only_utf8`,
-`chunker_panics_without_hypotheses`.
+`chunker_buffer_bounded`, `cutAfter_snoc`, `no_panic_chunker`, `no_panic_chunker_only_utf8`,
+`chunker_panics_without_hypotheses`, `trim_never_drainRange`.
 -/
 namespace Xt.Props.C03
 open Xt.Chunker
@@ -20,7 +20,9 @@ def spanDoc (stream : List Nat) (s : Span) : Doc := ⟨slice stream s.start s.st
 /-- For EVERY stream and EVERY event list satisfying `EventsMonotone` (and
 `ChunksUtf8`), with or without a trailing parser error, in debug or release
 arithmetic: the documents returned are, in order, exactly the substrings
-`[start(DS_k), stop(DE_k))` of the stream for the documents that are due
+`[start(DS_k) − (number of spaces immediately before it, not reaching behind the
+previous cut), stop(DE_k))` of the stream (`spaceStart`, `released`) for the
+documents that are due
 (`released`: every document start / document end pair that is followed by a
 further document start or by the stream end), each with the kind of its first
 node; the iteration ends the way the trace ends (no panic); the extents are in
@@ -30,21 +32,21 @@ split — the due documents are a prefix of it that misses at most the final
 pair, and misses nothing when the trace reaches the stream end event. -/
 theorem chunker_partition (oc : Bool) (stream : List Nat) (evs : List Ev) (t : Bool)
     (hm : EventsMonotone stream evs) (hu : ChunksUtf8 stream evs) :
-    (chunks oc stream evs t).emits.map (·.doc) = (released 0 none evs).map (spanDoc stream) ∧
+    (chunks oc stream evs t).emits.map (·.doc) = (released stream 0 0 none evs).map (spanDoc stream) ∧
     (chunks oc stream evs t).fin = endOf t evs ∧
-    Chain 0 (released 0 none evs) stream.length ∧
-    (released 0 none evs).map (fun s => (s.start, s.stop))
-      = (allPairs none evs).take (released 0 none evs).length ∧
-    (allPairs none evs).length ≤ (released 0 none evs).length + 1 ∧
+    Chain 0 (released stream 0 0 none evs) stream.length ∧
+    (released stream 0 0 none evs).map (fun s => (s.start, s.stop))
+      = (allPairs stream 0 none evs).take (released stream 0 0 none evs).length ∧
+    (allPairs stream 0 none evs).length ≤ (released stream 0 0 none evs).length + 1 ∧
     (endOf t evs = .done →
-      (released 0 none evs).map (fun s => (s.start, s.stop)) = allPairs none evs) := by
+      (released stream 0 0 none evs).map (fun s => (s.start, s.stop)) = allPairs stream 0 none evs) := by
   have h := run_spec oc stream t hm.1 evs St.init 0 none (inv_init stream) trivial hm.2 hu
-  refine ⟨?_, ?_, ?_, (released_pairs evs 0 none).1, (released_pairs evs 0 none).2,
-    released_complete evs 0 none t⟩
+  refine ⟨?_, ?_, ?_, (released_pairs stream evs 0 0 none).1, (released_pairs stream evs 0 0 none).2,
+    released_complete stream evs 0 0 none t⟩
   · unfold chunks; rw [h]
     simp [pendingEmit, St.init, toEmit, spanDoc, Function.comp_def]
   · unfold chunks; rw [h]
-  · exact released_chain stream.length evs 0 none 0 false (Nat.zero_le _) (by intro a k h; simp at h) hm.2
+  · exact released_chain stream stream.length evs 0 none 0 false (Nat.zero_le _) (by intro a k h; simp at h) hm.2
 
 /-- Document k is returned at the first document start or stream end event
 after its own document end event — never later, in particular it never waits
@@ -52,8 +54,8 @@ for the end of the stream unless it is the last document.  (`at_` is the index
 of the event during whose processing `Chunker::next` returned the document.) -/
 theorem chunker_lag_one (oc : Bool) (stream : List Nat) (evs : List Ev) (t : Bool)
     (hm : EventsMonotone stream evs) (hu : ChunksUtf8 stream evs) :
-    (chunks oc stream evs t).emits.map (·.at_) = (released 0 none evs).map (·.relAt) ∧
-    ∀ s ∈ released 0 none evs,
+    (chunks oc stream evs t).emits.map (·.at_) = (released stream 0 0 none evs).map (·.relAt) ∧
+    ∀ s ∈ released stream 0 0 none evs,
       (evs[s.deAt]?).map Ev.kind = some .docEnd ∧
       s.relAt = s.deAt + 1 + relIdx (evs.drop (s.deAt + 1)) ∧
       ((evs.drop (s.deAt + 1))[relIdx (evs.drop (s.deAt + 1))]?).map isBoundary = some true ∧
@@ -64,28 +66,41 @@ theorem chunker_lag_one (oc : Bool) (stream : List Nat) (evs : List Ev) (t : Boo
   · unfold chunks; rw [h]
     simp [pendingEmit, St.init, toEmit, Function.comp_def]
   · intro s hs
-    obtain ⟨_, l2, l3, l4⟩ := released_lag evs 0 none s hs
+    obtain ⟨_, l2, l3, l4⟩ := released_lag stream evs 0 0 none s hs
     obtain ⟨r1, r2⟩ := relIdx_spec _ l3
     exact ⟨l2, l4, r1, r2⟩
 
 /-- After any prefix of the trace the capture buffer holds exactly the stream
 bytes from `captured_start_offset` up to what has been read, and
-`captured_start_offset` is at or after the start of the current document: the
-buffer never holds anything older than the document being read. -/
+`captured_start_offset` is `cutAfter`: the start of the current document's
+chunk (its start event's offset less the spaces kept in front of it) once a
+document has started, the end of the previous document after it has ended, 0
+before the first.  The buffer never holds anything older than that. -/
 theorem chunker_buffer_bounded (oc : Bool) (stream : List Nat) (pre suf : List Ev) (st : St)
     (hm : EventsMonotone stream (pre ++ suf)) (h : stateAfter oc stream St.init pre = some st) :
     st.reader.captured = slice stream st.reader.capturedStart st.fed ∧
-    curStart 0 pre ≤ st.reader.capturedStart ∧
+    st.reader.capturedStart = cutAfter stream 0 pre ∧
     st.reader.capturedStart ≤ st.fed ∧
     st.fed = readMax 0 pre ∧
-    st.reader.captured.length ≤ readMax 0 pre - curStart 0 pre := by
-  obtain ⟨hi, h2, h3⟩ := stateAfter_inv oc stream hm.1 suf pre St.init st 0 false (inv_init stream)
-    (Nat.le_refl _) hm.2 h
+    st.reader.captured.length ≤ readMax 0 pre - cutAfter stream 0 pre := by
+  obtain ⟨hi, h2, h3⟩ := stateAfter_inv oc stream hm.1 suf pre St.init st false (inv_init stream) hm.2 h
+  have h2' : st.reader.capturedStart = cutAfter stream 0 pre := h2
   have h3' : st.fed = readMax 0 pre := h3
-  refine ⟨hi.cap, h2, hi.le, h3', ?_⟩
-  rw [hi.cap, slice_length, ← h3']
-  have := hi.le
+  refine ⟨hi.cap, h2', hi.le, h3', ?_⟩
+  rw [hi.cap, slice_length, ← h3', ← h2']
   omega
+
+/-- What `cutAfter` is, event by event: a document start moves it to the start
+of the run of spaces before the event's offset (never behind the previous
+cut), a document end moves it to the event's end offset, nothing else moves it. -/
+theorem cutAfter_snoc (stream : List Nat) (pre : List Ev) (e : Ev) :
+    cutAfter stream 0 (pre ++ [e]) =
+      match e.kind with
+      | .docStart => spaceStart stream (cutAfter stream 0 pre) e.start
+      | .docEnd => e.stop
+      | _ => cutAfter stream 0 pre := by
+  rw [cutAfter_append]
+  cases hk : e.kind <;> simp [cutAfter, hk]
 
 /-- Under the two hypotheses no panic site of chunker.rs is reached. -/
 theorem no_panic_chunker (oc : Bool) (stream : List Nat) (evs : List Ev) (t : Bool)
@@ -124,20 +139,63 @@ theorem no_panic_chunker_only_utf8 (oc : Bool) (stream : List Nat) (evs : List E
   · unfold chunks at h; rw [h2] at h
     simpa using h.symm
 
-/-- Without the hypotheses each remaining site is reachable: an offset that
-goes backwards underflows (a panic with overflow checks, a wrapped value that
-makes `drain` panic without), an offset beyond what was read makes `drain` /
-`split_off` panic, and a cut inside a multi-byte character makes the `unwrap`
-panic. -/
+/-- Without the hypotheses the other sites are reachable: an offset that goes
+backwards underflows (a panic with overflow checks; without them a wrapped
+value that the index in the space-retreating loop rejects), an offset beyond
+what was read makes that index / `split_off` panic, and a cut inside a
+multi-byte character makes the `unwrap` panic. -/
 theorem chunker_panics_without_hypotheses :
     (chunks true [0x61, 0x62] [⟨.docStart, 1, 1, 2⟩, ⟨.docEnd, 0, 0, 2⟩] false).fin = .panic .takeSub ∧
     (chunks false [0x61, 0x62] [⟨.docStart, 1, 1, 2⟩, ⟨.docEnd, 0, 0, 2⟩] false).fin = .panic .splitOffRange ∧
     (chunks true [0x61, 0x62] [⟨.docStart, 1, 1, 2⟩, ⟨.docStart, 0, 0, 2⟩] false).fin = .panic .trimSub ∧
-    (chunks false [0x61, 0x62] [⟨.docStart, 1, 1, 2⟩, ⟨.docStart, 0, 0, 2⟩] false).fin = .panic .drainRange ∧
-    (chunks true [0x61, 0x62] [⟨.docStart, 2, 2, 1⟩] false).fin = .panic .drainRange ∧
+    (chunks false [0x61, 0x62] [⟨.docStart, 1, 1, 2⟩, ⟨.docStart, 0, 0, 2⟩] false).fin = .panic .trimIndex ∧
+    (chunks true [0x61, 0x62] [⟨.docStart, 2, 2, 1⟩] false).fin = .panic .trimIndex ∧
     (chunks true [0x61, 0x62] [⟨.docStart, 0, 0, 1⟩, ⟨.docEnd, 2, 2, 1⟩] false).fin = .panic .splitOffRange ∧
     (chunks true [0xC3, 0xA9] [⟨.docStart, 0, 0, 2⟩, ⟨.docEnd, 1, 1, 2⟩] false).fin = .panic .fromUtf8 := by
   decide
+
+/-- For EVERY reader state and offset (no hypothesis at all): the
+`drain(..trim_len)` of `trim_to_offset` cannot panic — the loop in front of it
+has already indexed `captured[trim_len - 1]`. -/
+theorem trim_never_drainRange (oc : Bool) (r : Reader) (offset : Nat) :
+    r.trimToOffset oc offset ≠ .panic .drainRange := by
+  unfold Reader.trimToOffset
+  intro h
+  split at h
+  · rename_i s hs
+    unfold subU64 at hs
+    split at hs
+    · simp at hs
+    · split at hs
+      · simp at hs; simp at h; rw [h] at hs; simp at hs
+      · simp at hs
+  · split at h
+    · simp at h
+    · split at h
+      · rename_i s hs
+        simp at h; subst h
+        rename_i d _ _
+        -- `retreat` has no `drainRange` outcome
+        have : ∀ (d offset : Nat), retreat oc r.captured d offset ≠ .panic .drainRange := by
+          intro d
+          induction d with
+          | zero => intro offset; simp [retreat]
+          | succ d ih =>
+            intro offset
+            simp only [retreat]
+            split
+            · simp
+            · split
+              · split
+                · exact ih _
+                · split
+                  · simp
+                  · exact ih _
+              · simp
+        exact this _ _ hs
+      · rename_i t o hs
+        have := retreat_le oc r.captured _ _ t o hs
+        simp [this] at h
 
 /-! ### Non-vacuity: a three-document trace (second document a scalar, third an
 alias only) of the 22-byte stream `a: 1\n---\nb\n...\n--- *x\n`. -/
@@ -177,6 +235,16 @@ example : (chunks true exStream (exEvents.take 10) true).emits.map (·.doc) =
       [⟨[0x61, 0x3a, 0x20, 0x31, 0x0a], some .collection⟩] ∧
     (chunks true exStream (exEvents.take 10) true).fin = .err := by decide
 
+/-- An indented implicit document keeps its indentation: the chunk starts at the
+spaces before the first token (`  a: 1\n`, document start event at offset 2),
+and after `...` the next chunk starts at its own indentation, not earlier. -/
+example : (chunks true [0x20, 0x20, 0x61, 0x3a, 0x20, 0x31, 0x0a, 0x2e, 0x2e, 0x2e, 0x0a, 0x20, 0x62, 0x0a]
+      [⟨.streamStart, 0, 0, 14⟩, ⟨.docStart, 2, 2, 14⟩, ⟨.mapStart, 2, 2, 14⟩, ⟨.scalar, 2, 3, 14⟩,
+       ⟨.scalar, 5, 6, 14⟩, ⟨.mapEnd, 7, 7, 14⟩, ⟨.docEnd, 7, 10, 14⟩, ⟨.docStart, 12, 12, 14⟩,
+       ⟨.scalar, 12, 13, 14⟩, ⟨.docEnd, 14, 14, 14⟩, ⟨.streamEnd, 14, 14, 14⟩] false).emits.map (·.doc) =
+    [⟨[0x20, 0x20, 0x61, 0x3a, 0x20, 0x31, 0x0a, 0x2e, 0x2e, 0x2e], some .collection⟩,
+     ⟨[0x20, 0x62, 0x0a], some .scalar⟩] := by decide
+
 example : ∀ s, (chunks false exStream exEvents false).fin ≠ .panic s :=
   no_panic_chunker false exStream exEvents false ex_monotone ex_utf8
 
@@ -186,5 +254,7 @@ example : ∀ s, (chunks false exStream exEvents false).fin ≠ .panic s :=
 #print axioms no_panic_chunker
 #print axioms no_panic_chunker_only_utf8
 #print axioms chunker_panics_without_hypotheses
+#print axioms trim_never_drainRange
+#print axioms cutAfter_snoc
 
 end Xt.Props.C03
